@@ -30,10 +30,10 @@ const nominalRules = `{RulesVersion: 2, Samplers: {__default__: {DeterministicSa
 var (
 	intB = []string{"0", "1", "2", "-1", "2147483647", "2147483648", "4294967295", "4294967296", "4294967297", "8589934592",
 		"9223372036854775807", "9223372036854775808", `"5"`, "1.5", "null", "[]"}
-	intSmallB = []string{"0", "1", "-1", "2147483648", "4294967296", "9223372036854775807"}
-	durB      = []string{"0s", "1ns", "-1s", "-1ns", "1ms", "1s", "30s", "2562047h", `"abc"`, "5", `""`, "null"}
-	floatB    = []string{"0", "1", "-1", "0.5", "-0.1", "1.1", "1e-300", "1e308", ".nan", ".inf", `"x"`, "null"}
-	boolB     = []string{"true", "false", `"true"`, "1", "null"}
+	intSmallB  = []string{"0", "1", "-1", "2147483648", "4294967296", "9223372036854775807"}
+	durB       = []string{"0s", "1ns", "-1s", "-1ns", "1ms", "1s", "30s", "2562047h", `"abc"`, "5", `""`, "null"}
+	floatB     = []string{"0", "1", "-1", "0.5", "-0.1", "1.1", "1e-300", "1e308", ".nan", ".inf", `"x"`, "null"}
+	boolB      = []string{"true", "false", `"true"`, "1", "null"}
 	fieldListB = []string{`[]`, `[""]`, `["a"]`, `["a", ""]`, `["", "a"]`, `["a", "a"]`, `["a", "b"]`, `["root.a"]`, `["root."]`, `["root"]`, `["r"]`,
 		`["root.a", "a"]`, `["root.root.a"]`, `["?.NUM_DESCENDANTS"]`, `["?."]`, `["?"]`, `["?.NUM_DESCENDANTS", "a"]`, `[null]`, `[1]`, `"a"`, `null`,
 		`["meta.trace_id"]`, `["meta.refinery.root"]`}
@@ -135,41 +135,41 @@ func rulesSampler(rules string, nested bool) string {
 // ---- main-config boundary sets per metadata type -----------------------------------------------------------
 
 var mainTypeB = map[string][]string{
-	"int":          {"0", "1", "-1", "2", "100", "1000", "2147483647", "2147483648", "4294967296", "9223372036854775807", "9223372036854775808", `"7"`, "1.5", "null", "[]"},
-	"percentage":   {"0", "1", "10", "100", "101", "-1", "null"},
-	"duration":     {"0s", "1ns", "-1s", "1ms", "100ms", "1s", "15m", "2562047h", `"abc"`, "5", `""`, "null"},
-	"memorysize":   {"0", "1", `"1"`, "1Kb", "1MB", "1GiB", "16EiB", `"-1"`, "1XB", `""`, "9223372036854775807", "18446744073709551616", "null"},
-	"bool":         {"true", "false", `"true"`, "1", "null"},
-	"defaulttrue":  {"true", "false", `"t"`, `"f"`, `"x"`, "0", "null"},
-	"string":       {`""`, "a", `" "`, `"${C28_UNSET_ENV}"`, `"%s%n%d"`, "5", "null", "[a]"},
-	"stringarray":  {"[]", `[""]`, "[a]", "[a, a]", `[a, ""]`, "[null]", "a", "[1]", "null", `["root.a"]`, `["meta.trace_id"]`},
-	"map":          {"{}", `{"": x}`, `{a: ""}`, "{a: 1}", "{a: null}", "null", "[]", `{X-Honeycomb-Team: x}`, `{Content-Type: x}`, `{"a b": "c\nd"}`},
-	"url":          {`""`, "http://h", "https://h:1/p", "h", `"http://"`, "ftp://h", `"http://[::1"`, "http://h:99999", "http://h/%zz", "null", "5"},
-	"hostport":     {`""`, "h:1", `":1"`, "h", `"h:"`, `"[::1]:1"`, "h:99999", `"h:-1"`, "null", "5"},
-	"float":        {"0", "-1", "1e308", "0.5", `"x"`, "null", ".nan"},
+	"int":           {"0", "1", "-1", "2", "100", "1000", "2147483647", "2147483648", "4294967296", "9223372036854775807", "9223372036854775808", `"7"`, "1.5", "null", "[]"},
+	"percentage":    {"0", "1", "10", "100", "101", "-1", "null"},
+	"duration":      {"0s", "1ns", "-1s", "1ms", "100ms", "1s", "15m", "2562047h", `"abc"`, "5", `""`, "null"},
+	"memorysize":    {"0", "1", `"1"`, "1Kb", "1MB", "1GiB", "16EiB", `"-1"`, "1XB", `""`, "9223372036854775807", "18446744073709551616", "null"},
+	"bool":          {"true", "false", `"true"`, "1", "null"},
+	"defaulttrue":   {"true", "false", `"t"`, `"f"`, `"x"`, "0", "null"},
+	"string":        {`""`, "a", `" "`, `"${C28_UNSET_ENV}"`, `"%s%n%d"`, "5", "null", "[a]"},
+	"stringarray":   {"[]", `[""]`, "[a]", "[a, a]", `[a, ""]`, "[null]", "a", "[1]", "null", `["root.a"]`, `["meta.trace_id"]`},
+	"map":           {"{}", `{"": x}`, `{a: ""}`, "{a: 1}", "{a: null}", "null", "[]", `{X-Honeycomb-Team: x}`, `{Content-Type: x}`, `{"a b": "c\nd"}`},
+	"url":           {`""`, "http://h", "https://h:1/p", "h", `"http://"`, "ftp://h", `"http://[::1"`, "http://h:99999", "http://h/%zz", "null", "5"},
+	"hostport":      {`""`, "h:1", `":1"`, "h", `"h:"`, `"[::1]:1"`, "h:99999", `"h:-1"`, "null", "5"},
+	"float":         {"0", "-1", "1e308", "0.5", `"x"`, "null", ".nan"},
 	"sliceorscalar": {"1"},
 }
 
 // choice-like string fields get their documented values plus a bogus one
 var mainChoices = map[string][]string{
-	"AccessKeys.SendKeyMode": {"none", "all", "nonblank", "listedonly", "unlisted", "missingonly", "bogus", `""`},
-	"Logger.Type":            {"stdout", "honeycomb", "none", "bogus"},
-	"Logger.Level":           {"debug", "info", "warn", "error", "panic", "bogus"},
-	"PeerManagement.Type":    {"file", "redis", "bogus"},
-	"StressRelief.Mode":      {"never", "monitor", "always", "bogus", `""`},
+	"AccessKeys.SendKeyMode":  {"none", "all", "nonblank", "listedonly", "unlisted", "missingonly", "bogus", `""`},
+	"Logger.Type":             {"stdout", "honeycomb", "none", "bogus"},
+	"Logger.Level":            {"debug", "info", "warn", "error", "panic", "bogus"},
+	"PeerManagement.Type":     {"file", "redis", "bogus"},
+	"StressRelief.Mode":       {"never", "monitor", "always", "bogus", `""`},
 	"OTelMetrics.Compression": {"gzip", "none", "bogus"},
 }
 
 // fields whose deviation is combined with a second one because they are only read together
 var mainCompanions = map[string]string{
-	"AccessKeys.ReceiveKeys":          "AcceptOnlyListedKeys: true",
-	"AccessKeys.ReceiveKeyIDs":        "AcceptOnlyListedKeys: true",
-	"AccessKeys.SendKey":              "SendKeyMode: all",
-	"AccessKeys.SendKeyMode":          "SendKey: abcdef0123456789abcdef0123456789",
-	"Collection.MaxMemoryPercentage":  "AvailableMemory: 1GiB",
-	"StressRelief.ActivationLevel":    "Mode: monitor",
-	"StressRelief.DeactivationLevel":  "Mode: monitor",
-	"StressRelief.SamplingRate":       "Mode: always",
+	"AccessKeys.ReceiveKeys":                 "AcceptOnlyListedKeys: true",
+	"AccessKeys.ReceiveKeyIDs":               "AcceptOnlyListedKeys: true",
+	"AccessKeys.SendKey":                     "SendKeyMode: all",
+	"AccessKeys.SendKeyMode":                 "SendKey: abcdef0123456789abcdef0123456789",
+	"Collection.MaxMemoryPercentage":         "AvailableMemory: 1GiB",
+	"StressRelief.ActivationLevel":           "Mode: monitor",
+	"StressRelief.DeactivationLevel":         "Mode: monitor",
+	"StressRelief.SamplingRate":              "Mode: always",
 	"StressRelief.MinimumActivationDuration": "Mode: always",
 }
 
